@@ -365,7 +365,8 @@ def codegen_shirokov_inv(x, symbolic=False):
             power_idx = i - j - 2
             xi_diff = powers[power_idx] * cs[j]
             xi = xi - xi_diff
-        if xi.grades == (0,):
+        if 0 in xi.keys() and not any(v for k, v in xi.items() if k):
+            # Only the scalar part is left. (With simp_func=None vanishing coefficients are not removed, so test the values.)
             break
         xs.append(xi)
         cs.append(s if (s := xi.e) == 0 else n * s / i)
